@@ -225,6 +225,7 @@ func protoAlphabet() []Letter {
 	other("V", "get-longkey", "get "+strings.Repeat("k", 251)+"\r\n")
 	other("V", "get-ctrlkey", "get a\x01b\r\n")
 	other("V", "set-invalid-key", "set @x 0 0 1\r\nv\r\n")
+	other("V", "set-longkey-empty-value", "set "+strings.Repeat("L", 240)+" 0 0 0\r\n\r\n") // record > 256 bytes with nothing to compress
 	other("V", "incr-nonnumeric", "incr a abc\r\n")
 	other("V", "incr-invalid-key", "incr @x 1\r\n")
 	other("V", "stats", "stats\r\n")
